@@ -6,6 +6,8 @@
                                       -> observation [code sub bid retry' cross ecode]
                 | [1 sub id b]        SetAvail(b) on backend id of sub-cluster sub     -> observation []
                 | [2 sub id n]        connNum := n                                      -> observation []
+                | [3 [[name w] ...]]  BalanceGslb.Reload(gslb conf)                     -> observation []
+                | [4 sub [[id w] ...]] BalanceGslb.BackendReload for that sub-cluster    -> observation []
    output: list of observations
          | [9 wlc conf ops]   ONE BalanceRR with slow start: Init(conf), conf = [[id w] ...], Balance(WrrSmooth) (wlc = 0) or
            Balance(WlcSmooth) (wlc = 1); ops as in RunC01.v ([0 k] picks, [1 conf] Update, [2 id b] SetAvail,
@@ -35,6 +37,11 @@ Definition dec_gop (v : val) : option gop :=
   | VL [VZ 0; VZ retry; VZ h; VB _] => if (0 <=? h) && (h <? 2^64) then Some (GBalance retry h) else None
   | VL [VZ 1; VB s; VZ id; VZ b] => Some (GAvail s id (negb (b =? 0)))
   | VL [VZ 2; VB s; VZ id; VZ n] => Some (GConn s id n)
+  | VL [VZ 3; VL l] => match all_some (map (fun v => match v with VL [VB n; VZ w] => Some (n, w) | _ => None end) l) with
+                       | Some conf => Some (GReload conf)
+                       | None => None
+                       end
+  | VL [VZ 4; VB s; VL l] => match all_some (map dec_pair l) with Some conf => Some (GBackends s conf) | None => None end
   | _ => None
   end.
 Definition dec_in (v : val) : option (params * list (key * Z * list (Z * Z)) * list gop) :=
